@@ -190,7 +190,7 @@ fn comp_match(ast: &[At], name: &str) -> bool {
                         items.iter().any(|it| match it {
                             Item::Ch(x) => *x == c,
                             Item::Range(a, b) => *a <= c && c <= *b,
-                            Item::Class(_) => false,
+                            Item::Class(n) => crate::props::c04::class(n, c),
                         }) != *neg
                     }
                     At::Star => unreachable!(),
@@ -428,6 +428,11 @@ pub fn run(tier: Tier) -> i32 {
     for extra in ["é", "?", "??", "é?", "?a", "[é]", "[!a]*", "é*", "*a", "[é]a", "[a-é]"] {
         fields.push(extra.chars().collect());
     }
+    // collating symbols, equivalence classes and character classes inside (complemented) brackets,
+    // naming ASCII and non-ASCII characters
+    for extra in ["[![.é.]a]", "[![=é=]]*", "[[.é.]]", "[[=é=]a]*", "[![.a.]]", "[[=a=]b]", "[![:alpha:]]", "[[:alpha:]]*", "[![.é.]]a", "[[.-.]a]", "[![.-.]]"] {
+        fields.push(extra.chars().collect());
+    }
     for extra in ["[!a]", "[^a]", "[a-b]", "*/a", "*/.a", "s*/a", "*/*", "*/*/a", "sub*/?", "?ub/a", "*/", "./*", "sub/*", "*/..", "*/../*", "sub/../s*", "*/./a", "s*/../.a"] {
         fields.push(extra.chars().collect());
     }
@@ -536,7 +541,7 @@ pub fn run(tier: Tier) -> i32 {
     let cov = json!({
         "evaluations": evals.load(Relaxed),
         "distinct_nontrivial": nontrivial.load(Relaxed),
-        "rule": format!("every tree made of <= {max_entries} of 17 entries (files a b ab .a .b - [ * a], directory sub with sub/a sub/.a sub/sub2/a, sibling directories sub.x sub-, symlinks lnk->a and dlnk->sub) plus the full tree, x every field of <= {flen} characters over {{a b * ? [ ] . - /}} (plus 13 longer multi-component fields) with every quoting mask ('c' and \\c per character for fields <= 3, single positions above), from \"$v\" and from unquoted $v, x cwd at the tree root and in sub, x noglob; expanded by expand_words on a real Env over the simulated file system and compared with refglob (component-wise walk with the reference matcher, leading-period rule, slash only literal, sorted; no match or noglob -> the field with quotes removed). Non-trivial = the expected result differs from the field itself."),
+        "rule": format!("every tree made of <= {max_entries} of 17 entries (files a b ab .a .b - [ * a], directory sub with sub/a sub/.a sub/sub2/a, sibling directories sub.x sub-, symlinks lnk->a and dlnk->sub) plus the full tree, x every field of <= {flen} characters over {{a b * ? [ ] . - /}} (plus longer multi-component fields, multi-byte fields, and brackets holding collating symbols / equivalence classes / character classes of ASCII and non-ASCII characters, plain and complemented) with every quoting mask ('c' and \\c per character for fields <= 3, single positions above), from \"$v\" and from unquoted $v, x cwd at the tree root and in sub, x noglob; expanded by expand_words on a real Env over the simulated file system and compared with refglob (component-wise walk with the reference matcher, leading-period rule, slash only literal, sorted; no match or noglob -> the field with quotes removed). Non-trivial = the expected result differs from the field itself."),
         "samples": samples.take(),
         "trees": trees.len(),
         "fields": fields.len(),
